@@ -1349,7 +1349,21 @@ def gen_trace_spec(rng, tier):
             if chain and avail and rng.random() < 0.6:
                 return avail[-1]
             return rng.choice(avail)
-        if rng.random() < 0.25:
+        r0 = rng.random()
+        if r0 < 0.25:
+            # keyword-spelled parameters (axis=, keepdims=, ddof=, min=, max=): the trace must keep them
+            a = rng.choice(avail)
+            direct_vec = a < nin and inputs[a][1] > 0
+            opn = rng.choice(["clamp", "clamp", "sum", "amax", "mean", "logsumexp", "prod", "std", "var"])
+            if opn == "clamp":
+                kw = rng.choice([{"min": -0.5}, {"max": 0.75}, {"min": -1.0, "max": 1.0}, {"max": -0.25}])
+            elif opn in ("std", "var"):
+                kw = rng.choice([{"ddof": 1}, {"ddof": 1, "keepdims": True}] if direct_vec else [{"keepdims": True}])
+            else:
+                kw = rng.choice(([{"axis": 0}, {"axis": -1, "keepdims": True}, {"keepdims": True}, {"axis": 0, "keepdims": True}]
+                                 if direct_vec else [{"keepdims": True}]))
+            instrs.append([opn, a, kw])
+        elif r0 < 0.45:
             instrs.append([rng.choice(["neg", "abs", "exp", "tanh"]), pick()])
             if isinstance(instrs[-1][1], list):
                 instrs[-1][1] = rng.choice(avail)
@@ -1366,7 +1380,8 @@ def gen_trace_spec(rng, tier):
     data = {}
     for name, shape in inputs:
         data[name] = [rng.choice(VALS) for _ in range(shape)] if shape else rng.choice(VALS)
-    return {"inputs": inputs, "instrs": instrs, "ret": ret, "data": data}
+    has_kw = any(isinstance(ins[-1], dict) for ins in instrs)
+    return {"inputs": inputs, "instrs": instrs, "ret": ret, "data": data, "allow": has_kw and len(instrs) % 4 == 0}
 
 
 class TraceFn:
@@ -1390,7 +1405,8 @@ class TraceFn:
             return res[a - 100] if a >= 100 else vals[a]
         for t, ins in enumerate(self.spec["instrs"]):
             op = getattr(ops, ins[0])
-            res.append(op(*[get(t, j, a) for j, a in enumerate(ins[1:])]))
+            kws = ins[-1] if isinstance(ins[-1], dict) else {}
+            res.append(op(*[get(t, j, a) for j, a in enumerate(ins[1:]) if not isinstance(a, dict)], **kws))
         r = self.spec["ret"]
         return res[r - 100] if r >= 100 else vals[r]
 
@@ -1407,7 +1423,7 @@ def fn(**kw):
     res = []
     get = lambda a: (a[1] if isinstance(a, list) else (res[a - 100] if a >= 100 else vals[a]))
     for ins in spec["instrs"]:
-        res.append(getattr(ops, ins[0])(*[get(a) for a in ins[1:]]))
+        res.append(getattr(ops, ins[0])(*[get(a) for a in ins[1:] if not isinstance(a, dict)], **(ins[-1] if isinstance(ins[-1], dict) else {{}})))
     r = spec["ret"]
     return res[r - 100] if r >= 100 else vals[r]
 data = {{k: np.array(v, dtype=np.float64) for k, v in spec["data"].items()}}
@@ -1415,7 +1431,7 @@ FAILS = False
 with np.errstate(all="ignore"):
     expected = fn(**data)
     try:
-        traced = trace_function(fn, data)
+        traced = trace_function(fn, data, allow_constants=bool(spec.get("allow")))
     except (KeyError, NotImplementedError) as e:
         traced = None; print("declined", repr(e))
     if traced is not None:
@@ -1431,11 +1447,23 @@ def check_trace(ctx, spec, use_driver=True):
     data = {k: np.array(v, dtype=np.float64) for k, v in spec["data"].items()}
     wit = {"trace_spec": spec}
     py = TRACE_TEMPLATE.format(spec=json.dumps(spec))
+    has_kw = any(isinstance(ins[-1], dict) for ins in spec["instrs"])
+    import warnings
+    warnings.simplefilter("ignore")
     with np.errstate(all="ignore"):
-        expected = fn(**data)
-        declined = None
         try:
-            traced = trace_function(fn, data)
+            expected = fn(**data)
+        except Exception as e:
+            ctx.count("trace:skip-direct-call-raises:" + type(e).__name__)
+            return
+        if has_kw:
+            ctx.count("trace:has-keyword-op-arguments")
+        declined = None
+        # keyword-spelled calls trace WITHOUT allow_constants (bound bool defaults are constants, like ints);
+        # a quarter of them is still traced with allow_constants=True (spec["allow"])
+        allow = bool(spec.get("allow"))
+        try:
+            traced = trace_function(fn, data, allow_constants=allow)
         except KeyError:
             declined = "KeyError"
         except NotImplementedError as e:
@@ -1503,7 +1531,7 @@ def check_trace(ctx, spec, use_driver=True):
             for o in keep:
                 objs[num[id(o)]] = o
             vars_ = [i for i, o in objs.items() if is_variable(o)]
-            req = (f"C18 trace ({' '.join(map(str, vars_))}) false ({' '.join(tl)}) {rid} "
+            req = (f"C18 trace ({' '.join(map(str, vars_))}) {'true' if allow else 'false'} ({' '.join(tl)}) {rid} "
                    f"({' '.join(f'(\"{k}\" {i})' for k, i in kwids)})")
             a = ctx.driver.ask([req])[0]
             if not a.startswith("ok "):
@@ -1580,12 +1608,12 @@ if mode.startswith("traced"):
         res = []
         get = lambda a: (a[1] if isinstance(a, list) else (res[a - 100] if a >= 100 else vals[a]))
         for ins in spec["instrs"]:
-            res.append(getattr(ops, ins[0])(*[get(a) for a in ins[1:]]))
+            res.append(getattr(ops, ins[0])(*[get(a) for a in ins[1:] if not isinstance(a, dict)], **(ins[-1] if isinstance(ins[-1], dict) else {{}})))
         r = spec["ret"]
         return res[r - 100] if r >= 100 else vals[r]
     conv = lambda d: {{k: (v if isinstance(v, str) else np.array(v, dtype=np.float64)) for k, v in d.items()}}
     oracle = lambda d: fn(**d)
-    obj = trace_function(fn, conv(steps[0][1]))
+    obj = trace_function(fn, conv(steps[0][1]), allow_constants=bool(spec.get("allow")))
 else:
     expr = build(spec)
     kinds = {{nd[1]: nd[2] for nd in spec["nodes"] if nd[0] == "var"}}
@@ -1653,7 +1681,8 @@ def run_history(ctx, what, mode, obj, steps, conv, oracle, wit, py):
                              expected=jsonable(want), python=py)
                     return False
                 if not same_value(got, want, 1e-11):
-                    ctx.fail("input", f"C18.history-{mode}-answer-depends-on-earlier-calls", witness=dict(wit, step=i),
+                    ctx.fail("input", f"C18.history-{mode}-" + ("first-call-ne-oracle" if i == 0 else "answer-depends-on-earlier-calls"),
+                             witness=dict(wit, step=i),
                              got=jsonable(got), expected=jsonable(want), python=py)
                     return False
                 ctx.count("history:valid-call")
@@ -1740,7 +1769,7 @@ def history_trace_case(ctx, tspec, rng):
     valid[0] = tspec["data"]
     with np.errstate(all="ignore"):
         try:
-            traced = trace_function(fn, conv(valid[0]))
+            traced = trace_function(fn, conv(valid[0]), allow_constants=bool(tspec.get("allow")))
         except Exception:
             ctx.count("history:trace-declined")
             return
